@@ -3,7 +3,7 @@ from .lib.match import *
 
 SELECT = (r'^bluetoe::server::(handle_find_information_request|handle_read_by_type_request|handle_read_by_group_type_request|handle_find_by_type_value_request|all_attributes|all_services_by_group|'
           r'last_handle_index|collect_handle_uuid_tuples|check_size_and_handle_range)$|^bluetoe::details::(collect_primary_services|services_by_group|collect_attributes|uuid_filter|value_filter)::'
-          r'|^bluetoe::details::attribute_access_arguments::|^bluetoe::details::generate_attribute::(access|char_declaration_access)$|characteristic_value_access$|^bluetoe::details::attribute_value_read\w*$')
+          r'|^bluetoe::details::uuid_filter::|^bluetoe::details::attribute_access_arguments::|^bluetoe::details::generate_attribute::(access|char_declaration_access)$|characteristic_value_access$|^bluetoe::details::attribute_value_read\w*$')
 UNITS = lambda u: u in ('w_inst_att',) or u.startswith('t_att_find') or u.startswith('t_att_read_by') or u.startswith('t_filter')
 SV = 'bluetoe::server::'
 META = {
@@ -45,6 +45,27 @@ def run(chk, facts, tier):
     chk.rule('no-handle-index-mix', 'attribute handles and attribute indices are not mixed in stores, member initialisers and comparisons of the discovery code', floor=20)
     chk.rule('ascending-bounded-iteration', 'all_attributes / collect_handle_uuid_tuples iterate ascending from the mapped start to the mapped end, the tuple loop also bounded by number_of_attributes and the remaining output', floor=2)
     chk.rule('access-type-agreement', 'every attribute_access_type constructed by a factory is tested by some access function, and every attribute_access_result a caller compares against is returned by some access function', floor=4)
+
+    chk.rule('uuid16-representation', 'uuid_filter treats a 128 bit UUID as a 16 bit one only if all 14 bytes outside the 16 bit field equal the Bluetooth base UUID (bytes 0..11 compared, bytes 14 and 15 zero) and then reads the 16 bit value at offset 12', floor=1)
+    for fn in variants(facts, 'bluetoe::details::uuid_filter::representable_as_16bit_uuid', chk):
+        rets = fn.returns()
+        covered = set()
+        if len(rets) == 1:
+            for l, op, r in atoms(ret_value(rets[0]), True):
+                x = strip_casts(l) if not isinstance(l, int) else None
+                if x is not None and x.is_call('equal') and len(x.args()) == 3:
+                    a1 = as_binop(x.args()[1])
+                    if any(y.d.get('q') == 'bluetoe::details::uuid::bytes' for y in x.args()[0].walk()) and any(y.d.get('q') == 'bluetoe::details::uuid::bytes' for y in x.args()[1].walk()) and a1 and a1[0] == '-' and cval(a1[2]) is not None and is_name(x.args()[2], fn.params[0]['n']):
+                        covered |= set(range(0, 16 - cval(a1[2])))
+                if op == '==' and cval(r) == 0 and x is not None and x.k == 'ArraySubscriptExpr' and is_name(x.c[0], fn.params[0]['n']) and cval(x.c[1]) is not None:
+                    covered.add(cval(x.c[1]))
+        ok = covered == set(range(16)) - {12, 13}
+        chk.instance('uuid16-representation', fn, 'bytes compared with the base UUID: %s' % sorted(covered), ok,
+                     '' if ok else 'byte(s) %s of a 128 bit UUID are ignored: a 128 bit type that only shares its lower part with the base UUID matches a 16 bit attribute type' % sorted(set(range(16)) - {12, 13} - covered), key='representable')
+    for fn in variants(facts, 'bluetoe::details::uuid_filter::uuid_filter', chk):
+        adv = [val for tgt, op, val, st in stores(fn.body) if is_name(tgt, 'bytes_') and op == '+=']
+        ok = len(adv) == 1 and cval(adv[0]) == 12
+        chk.instance('uuid16-representation', fn, '16 bit value taken from offset %s' % (cval(adv[0]) if adv else None), ok, '' if ok else 'the 16 bit value is not read from bytes 12/13', key='offset')
 
     # ---- (1) ending handle mapping
     scope = [f for f in facts.functions if f.q.startswith(SV) or f.q.startswith('bluetoe::details::collect_primary_services') or f.q.startswith('bluetoe::details::services_by_group')]
